@@ -111,7 +111,7 @@ func writeWorkspace() (string, error) {
 		return "", err
 	}
 	work := "go 1.23.0\n\nuse (\n\t" + repoRoot + "/go/appencryption\n\t" + repoRoot + "/go/securememory\n)\n"
-	if err := os.WriteFile(filepath.Join(dir, "go.work"), []byte(work), 0o644); err != nil {
+	if err := writeFileAtomic(filepath.Join(dir, "go.work"), []byte(work)); err != nil {
 		return "", err
 	}
 	seen := map[string]bool{}
@@ -130,10 +130,36 @@ func writeWorkspace() (string, error) {
 		}
 	}
 	sort.Strings(lines)
-	if err := os.WriteFile(filepath.Join(dir, "go.work.sum"), []byte(strings.Join(lines, "\n")+"\n"), 0o644); err != nil {
+	if err := writeFileAtomic(filepath.Join(dir, "go.work.sum"), []byte(strings.Join(lines, "\n")+"\n")); err != nil {
 		return "", err
 	}
 	return filepath.Join(dir, "go.work"), nil
+}
+
+// writeFileAtomic leaves the file untouched when it already has the content, and otherwise replaces it by rename, so
+// that checks running concurrently (several properties at once) never see a truncated go.work.
+func writeFileAtomic(path string, content []byte) error {
+	if old, err := os.ReadFile(path); err == nil && string(old) == string(content) {
+		return nil
+	}
+	tmp, err := os.CreateTemp(filepath.Dir(path), filepath.Base(path)+".tmp*")
+	if err != nil {
+		return err
+	}
+	if _, err := tmp.Write(content); err != nil {
+		tmp.Close()
+		os.Remove(tmp.Name())
+		return err
+	}
+	if err := tmp.Close(); err != nil {
+		os.Remove(tmp.Name())
+		return err
+	}
+	if err := os.Chmod(tmp.Name(), 0o644); err != nil {
+		os.Remove(tmp.Name())
+		return err
+	}
+	return os.Rename(tmp.Name(), path)
 }
 
 func loadUniverse(name string, bc BuildConfig, allDeps bool) (*Universe, error) {
